@@ -185,3 +185,72 @@ func VerifC04CrashTxn(h *verifh.H) {
 	}
 	h.Observe("acked", h.Acked())
 }
+
+// VerifC04CrashCreate: the process dies at any marked boundary of
+// DsManager.CreateDataset (optionally after an earlier dataset was created and
+// written). After the restart the store opens, the half-created dataset is
+// there or not, every dataset created afterwards gets an internal id no other
+// dataset (core.Dataset included) has, and a batch written to one dataset shows
+// up in that dataset only.
+func VerifC04CrashCreate(h *verifh.H) {
+	env := VerifConfig(h, time.Hour)
+	withFirst := h.Choice("withFirst", 2) == 1
+	fv := &mVersion{ID: "ns0:e1", Props: map[string]string{"ns0:v": "first"}, Refs: map[string][]string{}}
+	if h.BeforeCrash() {
+		hub := VerifOpenHub(env)
+		if withFirst {
+			d, err := hub.Dsm.CreateDataset("first", nil)
+			h.Assert(err == nil, "create first")
+			h.Assert(d.StoreEntities([]*Entity{mkEntity(fv)}) == nil, "write first")
+		}
+		h.CrashWindowStart()
+		_, err := hub.Dsm.CreateDataset("people", nil)
+		h.Assert(err == nil, "create accepted")
+	}
+	h.CrashAndRecover()
+	hub := VerifOpenHub(env)
+	if h.Acked() {
+		h.Assert(hub.Dsm.GetDataset("people") != nil, "an acknowledged create is in effect after the crash")
+	}
+	// create (or re-create) people and two more datasets
+	var all []*Dataset
+	for _, n := range []string{"people", "orders", "places"} {
+		d, err := hub.Dsm.CreateDataset(n, nil)
+		h.Assert(err == nil && d != nil, "create after recovery accepted :: "+n)
+		if d != nil {
+			all = append(all, d)
+		}
+	}
+	if withFirst {
+		h.Assert(hub.Dsm.GetDataset("first") != nil, "a dataset created before the crash is still there")
+		all = append(all, hub.Dsm.GetDataset("first"))
+	}
+	all = append(all, hub.Dsm.GetDataset("core.Dataset"))
+	for i := range all {
+		for j := i + 1; j < len(all); j++ {
+			if all[i] != nil && all[j] != nil {
+				h.Assert(all[i].InternalID != all[j].InternalID, "no two datasets share an internal id after a crash inside create :: "+all[i].ID+" and "+all[j].ID+" have "+itoa(int(all[i].InternalID)))
+			}
+		}
+	}
+	// a batch written to orders shows up in orders only
+	ov := &mVersion{ID: "ns0:o1", Props: map[string]string{"ns0:v": "order"}, Refs: map[string][]string{}}
+	h.Assert(hub.Dsm.GetDataset("orders").StoreEntities([]*Entity{mkEntity(ov)}) == nil, "write after recovery accepted")
+	for _, n := range []string{"people", "orders", "places", "first"} {
+		d := hub.Dsm.GetDataset(n)
+		if d == nil {
+			continue
+		}
+		res, err := d.GetEntities("", -1)
+		h.Assert(err == nil, "listing")
+		want := ""
+		switch {
+		case n == "orders":
+			want = mRender(ov)
+		case n == "first":
+			want = mRender(fv)
+		}
+		h.Assert(vJoin(vRenderList(res.Entities)) == want, "a dataset holds exactly what was written to it :: ds="+n+" got="+vJoin(vRenderList(res.Entities))+" want="+want)
+	}
+	h.Observe("acked", h.Acked())
+}
